@@ -194,6 +194,24 @@ def run(ctx, rep):
             for v in ((e.path,) if e.path is not None else ()) + tuple(e.args or ()):
                 if _uses_whole(top, v, pred):
                     whole.append('%s at %s uses %s as a whole: %s' % (e.kind, e.where(), what, vstr(v)[:100]))
+        # ... and only if every element is visited whenever the writer reports success: leaving the loop early on an
+        # element-dependent condition makes the set of files written depend on the iteration order
+        from .lib.guards import edge_dominates
+        from .lib.paths import strip as _st
+        partial = []
+        for g in [top] + prog.closures_of(top):
+            for lp in E.loops(g):
+                srcs = iteration_sources(sl, g, lp.next_call)
+                if not any(pred(top, _st(v)) for v in srcs):
+                    continue
+                ex = getattr(lp, 'exhaust', None)
+                early = [(b, t) for b in lp.body for t in g.succs(b) if t not in lp.body and (b, t) != ex]
+                for st in E.sites(g):
+                    if ex is None or st.bb in lp.body or any(st.bb == t or st.bb in g.reachable(t) for _, t in early):
+                        partial.append('%s:%d' % (g.file, g.line))
+        rep.check(not partial, 'R2', 'triage-basis/complete/' + tfp.split('::')[-1], '%s:%d' % (top.file, top.line),
+                  'every element of %s is visited on every success path' % what,
+                  'the loop over %s can be left early with success: which elements were handled depends on the iteration order' % what)
         rep.check(not whole, 'R2', 'triage-basis/element-wise/' + tfp.split('::')[-1], '%s:%d' % (top.file, top.line),
                   'every file effect uses %s element by element' % what, 'iteration order of %s can reach output bytes: %s' % (what, whole[:3]))
     # ---- R3 / R4 ---------------------------------------------------------------------------------------
